@@ -424,6 +424,13 @@ func (in *inst) send(lst, src string, q qspec, wait time.Duration, hdr map[strin
 	if src == "" {
 		srcA = netip.MustParseAddr("127.0.0.1")
 	}
+	if (lst == "http" || lst == "https" || lst == "fasthttp") && hdr["X-Client"] == "" {
+		for _, sc := range in.cfg.Servers {
+			if sc.Tag == lst && sc.Http.ClientAddrHeader != "" {
+				srcA = netip.Addr{} // the listener is told to read the client address from a header that is absent: unknown
+			}
+		}
+	}
 	if x := hdr["X-Client"]; x != "" { // the listener takes the client address from this header (first of a list)
 		if k := strings.IndexByte(x, ','); k > 0 {
 			x = x[:k]
